@@ -58,14 +58,31 @@ def cookedRecords (f : Forest) : List String :=
     let par := (cookedParent f fuel c).map (·.die.off)
     let root := (cookedRoot f fuel c).die.off
     let kids := (cookedChildren f fuel c).map (·.die.off)
-    let attrs := (attrsCooked f 400 c.die).map (·.2.name)
-    "[" ++ ",".intercalate [toString c.die.off, ol par, nl [root], nl kids, nl attrs] ++ "]"
+    let attrs := (attrsCooked f 4000 c.die).map fun x => nl [x.2.name, x.2.form]
+    "[" ++ ",".intercalate [toString c.die.off, ol par, nl [root], nl kids,
+      "[" ++ ",".intercalate attrs ++ "]"] ++ "]"
+
+/-- cooked unit list: offsets of the units `unit` yields in cooked mode -/
+def cookedUnits (f : Forest) : List String :=
+  (f.filter fun u => !isPartial u).map fun u => toString u.off
+
+/-- model-internal consistency (a test, not a theorem): for every cooked entry and every attribute
+    name occurring in the forest, `find_attribute` finds what `attribute` yields first under that
+    name.  Prints one line per disagreement. -/
+def findAttrDisagreements (f : Forest) : List String :=
+  let names := ((rawEntries f).flatMap fun d => d.attrs.map (·.name)).eraseDups
+  (cookedEntries f 100000).flatMap fun c =>
+    let as := attrsCooked f 4000 c.die
+    names.filterMap fun n =>
+      let a := (as.find? fun x => x.2.name == n).map fun x => (x.1, x.2.form)
+      let b := (findAttr f 4000 c.die n).map fun x => (x.1, x.2.form)
+      if a == b then none else some s!"{c.die.off} {n} {repr a} {repr b}"
 
 def findAttrRecords (f : Forest) (names : List Nat) : List String :=
   (cookedEntries f 100000).map fun c =>
     "[" ++ toString c.die.off ++ "," ++
       ",".intercalate (names.map fun n =>
-        match findAttr f 64 c.die n with
+        match findAttr f 4000 c.die n with
         | some (o, a) => nl [o, a.form]
         | none => "[]") ++ "]"
 
